@@ -843,6 +843,42 @@ theorem prefetch_excludes_barred (P : Params) (cfg : List Key) (d : Disk) (live 
         | cons a b => rfl
       simpa [this] using hrun
 
+/-! ## the consumer side: what clients get -/
+
+/-- **serving_fails_closed.** With no trust anchor a validating lookup is never
+answered — not from a cached delegation, not for an unsigned zone — and nothing
+is ever marked authenticated; only a client that sets CD gets (unvalidated) data. -/
+theorem serving_fails_closed (cd secure : Bool) :
+    serve [] cd secure ≠ .answered true ∧ (cd = false → serve [] cd secure = .servfail) := by
+  cases cd <;> cases secure <;> simp [serve]
+
+/-- **A store that cannot be loaded stops all validated service**: after a
+refresh that finds the tombstone store undecodable (garbage, truncated, zero
+length) or unreadable, and at a process start with such a store, every
+validating lookup fails until a later refresh succeeds. -/
+theorem unloadable_store_serves_nothing (P : Params) (cfg : List Key) (d : Disk) (live : List Key)
+    (f : Option Fetch) (fl : Faults) (now : Nat) (secure : Bool)
+    (h : d.tomb.undecodable = true ∨ fl.tombRead = true) :
+    serve (autoTA P cfg d live f fl now).live false secure = .servfail ∧
+    (d.tomb.undecodable = true → serve (startupKeys cfg d) false secure = .servfail) := by
+  constructor
+  · rcases h with h | h
+    · rw [(corrupt_store_fail_closed P cfg d live f fl now h).1]; rfl
+    · rw [(unreadable_store_fail_closed P cfg d live f fl now h).1]; rfl
+  · intro hu
+    have : startupKeys cfg d = [] := by
+      unfold startupKeys
+      cases htomb : d.tomb <;> simp_all [FileC.undecodable]
+    rw [this]; rfl
+
+/-- ... and so does a new revocation that could not be recorded. -/
+theorem unrecorded_revocation_serves_nothing (P : Params) (cfg : List Key) (d : Disk) (live : List Key)
+    (f : Option Fetch) (fl : Faults) (now : Nat) (secure : Bool)
+    (hrev : (autoTA P cfg d live f fl now).revoked ≠ [])
+    (h1 : fl.tombWrite = true) (h2 : fl.stateWrite = true) :
+    serve (autoTA P cfg d live f fl now).live false secure = .servfail := by
+  rw [(both_writes_fail_closed P cfg d live f fl now hrev h1 h2).1]; rfl
+
 /-! ## the trust set of a starting process -/
 
 /-- **startup_excludes_barred.** `NewResolver` (any disk, any configuration): a
@@ -1378,5 +1414,13 @@ example : 1 ∈ (autoTA {} [kA, kB] { state := .ok [⟨kA, .missing, 0⟩, ⟨kB
   self_signed_revocation_is_honoured {} [kA, kB] _ [kA, kB] revokeA {} 864000 [] kA' ⟨kA, .missing, 0⟩
     rfl (by decide) (by decide) rfl rfl (by decide) (by decide) (Or.inr rfl) (by decide) (by decide) (by decide)
     (by decide)
+
+-- the consumer side: zero-length store at a refresh -> nothing is served, not even with AD clear
+example : serve (autoTA {} [kA] { tomb := .empty } [kA] (some { keys := [kA], signers := [kA] }) {} 0).live false true
+    = .servfail := (unloadable_store_serves_nothing {} [kA] { tomb := .empty } [kA] _ {} 0 true (Or.inl rfl)).1
+example : serve [kA] false true = .answered true := by decide
+example : serve [] true true = .answered false := by decide
+example : serve (autoTA {} [kA, kB] {} [kA, kB] (some revokeA) { tombWrite := true, stateWrite := true } 0).live false false
+    = .servfail := unrecorded_revocation_serves_nothing {} [kA, kB] {} [kA, kB] _ _ 0 false (by decide) rfl rfl
 
 end SdnsVerif.Props.C09
